@@ -67,3 +67,98 @@ def test_bindings_model():
     assert m.expect[8][0] == (R, R, R)
     text = M.emit_program(prog)
     assert "(binding [nd 77 *b* 1]" in text and "(deref fut_1)" in text
+
+
+# ---------------------------------------------------------------- seqref (C06 pipeline stages)
+
+from models import seqref as SR  # noqa: E402
+
+
+def _old_ref(stage, inp):
+    """The closed forms the C06 check used before the generator-based reference (kept as a cross-check)."""
+    if stage == "map":
+        return [x + 1 for x in inp]
+    if stage == "filter":
+        return [x for x in inp if SR.pred(x)]
+    if stage == "concat":
+        return list(inp) + [9000, 9010]
+    if stage == "take":
+        return list(inp[:SR.TAKE_K])
+    if stage == "drop":
+        return list(inp[SR.DROP_K:])
+    if stage == "take-while":
+        out = []
+        for x in inp:
+            if not SR.tw(x):
+                break
+            out.append(x)
+        return out
+    if stage == "map2":
+        return [a + b for a, b in zip(inp, SR.MAP2_VEC)]
+    if stage == "keep":
+        return [SR.keepf(x) for x in inp if SR.keepf(x) is not None]
+    raise ValueError(stage)
+
+
+def _old_need(stage, inp, j):
+    n = len(inp)
+    if stage == "map":
+        return min(j, n)
+    if stage == "filter":
+        idx = [i for i, x in enumerate(inp) if SR.pred(x)]
+        return idx[j] if j < len(idx) else n
+    if stage == "keep":
+        idx = [i for i, x in enumerate(inp) if SR.keepf(x) is not None]
+        return idx[j] if j < len(idx) else n
+    if stage == "concat":
+        return j if j < n else n
+    if stage == "take":
+        return min(j, SR.TAKE_K - 1, n)
+    if stage == "drop":
+        return min(j + SR.DROP_K, n)
+    if stage == "take-while":
+        ref = _old_ref(stage, inp)
+        return j if j < len(ref) else min(len(ref), n)
+    if stage == "map2":
+        return min(j, len(SR.MAP2_VEC), n)
+    raise ValueError(stage)
+
+
+def test_seqref_agrees_with_closed_forms():
+    for n in range(0, 9):
+        inp = [10 * i for i in range(n)]
+        for stage in ("map", "filter", "concat", "take", "drop", "take-while", "map2", "keep"):
+            assert SR.ref(stage, inp) == _old_ref(stage, inp), (stage, n)
+            t = SR.need_table(stage, inp)
+            for j in range(0, n + 4):
+                assert SR.need(t, j) == _old_need(stage, inp, j), (stage, n, j, t)
+
+
+def test_seqref_tables_are_monotone_and_bounded():
+    for n in range(0, 9):
+        inp = [10 * i for i in range(n)]
+        for stage in SR.STAGES:
+            out = SR.ref(stage, inp)
+            t = SR.need_table(stage, inp)
+            assert len(t) == len(out) + 1
+            assert all(a <= b for a, b in zip(t, t[1:])), (stage, n, t)
+            assert all(-1 <= x <= n for x in t)
+            assert SR.need(t, -1) == -1 and SR.need(t, 10 ** 6) == t[-1]
+
+
+def test_seqref_examples():
+    inp = [0, 10, 20, 30, 40]
+    assert SR.ref("interpose", inp) == [0, 7777, 10, 7777, 20, 7777, 30, 7777, 40]
+    assert SR.need_table("interpose", inp)[:3] == [0, 1, 1]          # the first element needs only itself
+    assert SR.ref("partition-step", inp) == [[0, 10], [30, 40]]
+    assert SR.need_table("partition-step", inp) == [1, 4, 5]
+    assert SR.ref("partition-all", inp) == [[0, 10], [20, 30], [40]]
+    assert SR.ref("partition-by", [0, 10, 20, 30, 40, 50, 60]) == [[0, 10, 20], [30, 40, 50], [60]]
+    assert SR.need_table("partition-by", [0, 10, 20, 30]) == [3, 4, 4]
+    assert SR.ref("cycle", [0, 10]) == [0, 10, 0, 10, 0, 10, 0]
+    assert SR.need_table("cycle", [0, 10])[:4] == [0, 1, 2, 2]
+    assert SR.ref("mapcat", [0, 10, 30, 40]) == [0, 1, 10, 11, 40, 41]
+    assert SR.need_table("concat-pre", inp)[:4] == [-1, -1, 0, 1]
+    assert SR.ref("drop-last", inp) == [0, 10, 20] and SR.need_table("drop-last", inp) == [2, 3, 4, 5]
+    assert SR.ref("take-nth", inp) == [0, 20, 40] and SR.need_table("take-nth", inp) == [0, 2, 4, 5]
+    assert SR.ref("dedupe", [0, 10, 20, 30, 40]) == [0, 20, 40]
